@@ -3,13 +3,17 @@
    the declarative typing rules of Spec/Typing.v (no confluence or normalisation needed). Every
    program the implementation accepts is handed, elaborated term and reported type, to the extracted
    checker: acceptance by it is a kernel-checked certificate that the instance is well typed. The
-   universal statement about the implementation's own checker (C03_statement) is not claimed: with
-   type : type, recursive groups and holes it needs a metatheory this development does not have, and
-   it is refuted for today's code by the recorded finding D9. *)
+   universal statement about the checker is refuted for today's code by the recorded finding D9
+   (C03_soundness_refuted_D9, a witness with an unsolved hole in the input, reproduced inside Coq). On the
+   fragment where D9 cannot occur - programs without holes, i.e. fully annotated ones - soundness IS a
+   theorem of the checker model (Model B, the mirror compared with type_check case by case):
+   C03_checker_model_sound_on_hole_free (Proofs/TcSoundHF.v: a simulation up to zonking; every hole the
+   application rule allocates is solved at once, so no unsolved hole is ever copied). *)
 From Coq Require Import List ZArith Bool Relations.
 Import ListNotations.
 Require Import Gram.Model.ModelB.
-Require Import Gram.Model.Term Gram.Model.DeBruijn Gram.Model.Eval Gram.Spec.Typing Gram.Oracle.Infer Gram.Proofs.InferSound.
+Require Import Gram.Model.Term Gram.Model.DeBruijn Gram.Model.Eval Gram.Spec.Typing Gram.Oracle.Infer Gram.Proofs.InferSound Gram.Proofs.TcSoundHF.
+Require Gram.Proofs.ScopeStore.
 
 Theorem C03_whnf_sound : forall fuel G t u, whnf fuel G t = Some u -> clos_refl_trans term (red G) t u.
 Proof. exact whnf_sound. Qed.
@@ -61,3 +65,29 @@ Proof. vm_compute. repeat split; reflexivity. Qed.
 Check C03_soundness_refuted_D9 :
   D9_check = true /\ is_value (TBin OSum TTrue (TLit 1)) = false /\ step (TBin OSum TTrue (TLit 1)) = None.
 Print Assumptions C03_soundness_refuted_D9.
+
+(* soundness of the checker model on hole-free programs: accepted without a diagnostic => the elaborated term
+   is the program itself, well typed at a type definitionally equal to the reported one *)
+Theorem C03_checker_model_sound_on_hole_free : forall f t r,
+  hole_free t = true -> tcB f [] [] [] t = Some r -> b_errs r = [] ->
+  exists T n0, has_type [] t T /\
+    forall n, n0 <= n -> conv [] T (zonkB n (b_st r) (b_ty r)) /\ zonkB n (b_st r) (b_elab r) = t.
+Proof. exact tcB_sound_hole_free_zonkB. Qed.
+Check C03_checker_model_sound_on_hole_free : forall f t r,
+  hole_free t = true -> tcB f [] [] [] t = Some r -> b_errs r = [] ->
+  exists T n0, has_type [] t T /\
+    forall n, n0 <= n -> conv [] T (zonkB n (b_st r) (b_ty r)) /\ zonkB n (b_st r) (b_elab r) = t.
+Print Assumptions C03_checker_model_sound_on_hole_free.
+
+(* recorded finding D19 inside Coq: with a hole under a binder of an annotation, the checker model accepts - without
+   any diagnostic - a program whose elaborated term is ILL SCOPED (index 2 at depth 2), and under one more binder a
+   program at an unsound type: z's annotation means `type -> g` where the program says `type -> f` *)
+Theorem C03_ill_scoped_elaboration_D19 : ltac:(let T := type of Gram.Proofs.ScopeStore.CE.tcB_elaborates_ill_scoped in exact T).
+Proof. exact Gram.Proofs.ScopeStore.CE.tcB_elaborates_ill_scoped. Qed.
+Check C03_ill_scoped_elaboration_D19 : _ /\ _ /\ _ /\ _ = false /\ _ = false.
+Print Assumptions C03_ill_scoped_elaboration_D19.
+
+Theorem C03_wrong_variable_D19 : ltac:(let T := type of Gram.Proofs.ScopeStore.CE.tcB_wrong_variable in exact T).
+Proof. exact Gram.Proofs.ScopeStore.CE.tcB_wrong_variable. Qed.
+Check C03_wrong_variable_D19 : _ /\ _ = true.
+Print Assumptions C03_wrong_variable_D19.
